@@ -213,6 +213,9 @@ def from_float_requests(rng, tier):
         reqs.append("C08 i.from_f32 %x" % b)
     pats64 = set()
     exps = {0, 1, 2, 2045, 2046, 2047} | set(range(1015, 1100)) | {1023 + k for k in (126, 127, 128, 129, 191, 192, 193, 1000, 1022)}
+    # digit-level split of `ret <<= exponent` (NB.Model.FloatD -> biguint_shl): whole-digit shifts (amount % 64 == 0,
+    # no bit loop), one bit below / above them, for every digit count 0..15
+    exps |= {e for j in range(16) for e in (1075 + 64 * j - 1, 1075 + 64 * j, 1075 + 64 * j + 1) if e <= 2046}
     if thorough:
         exps = set(range(2048))
     else:
